@@ -16,6 +16,7 @@ package main
 //   - after the faults stop, all replicas converge on one log containing a fresh marker.
 
 import (
+	"sync"
 	"context"
 	"fmt"
 	"os"
@@ -83,6 +84,7 @@ func childRaft(args []string) {
 	}
 	raftCorpusVoteBeforeAppend(out)
 	raftCorpusTwoCandidatesOneTerm(out)
+	raftCorpusDeposedLeaderLearnsByAppend(out)
 	for t := 0; t < trials; t++ {
 		raftTrial(out, rng.Fork(), t, thorough)
 	}
@@ -483,5 +485,96 @@ func raftCorpusTwoCandidatesOneTerm(out *childOut) {
 		}
 	}
 	out.Nontrivial("two-candidates-one-term")
+	c.teardown()
+}
+
+// corpus: a deposed leader learns of its successor by an append. The replica is leader of term T;
+// the first thing it hears of term T+1 is the new leader's append, so one Ready carries the soft
+// state change (leader -> follower), the new hard state, the appended entry and the
+// acknowledgement. The loop must decide "send before save" by the role *after* that Ready: a
+// follower's acknowledgement leaves only once the entry is in the log store.
+func raftCorpusDeposedLeaderLearnsByAppend(out *childOut) {
+	out.Begin("corpus deposed leader learns of its successor by an append")
+	defer out.End()
+	c := newRsCluster(uuid.NewV4(), false, NewRng(13))
+	c.viol = func(p, s, w string) { out.Violate(p, s, w) }
+	var mu sync.Mutex
+	var acks []string
+	c.msgObs = func(from *rsNode, m *raftpb.Message) {
+		hs, err1 := from.w.HardState()
+		last, err2 := from.w.LastIndex()
+		if err1 != nil || err2 != nil {
+			return
+		}
+		rej := 0
+		if m.Reject {
+			rej = 1
+		}
+		ok := attested(m, hs, last, from.id)
+		if m.Type == raftpb.MsgHeartbeat || m.Type == raftpb.MsgHeartbeatResp {
+			if ok {
+				return
+			}
+		}
+		mu.Lock()
+		defer mu.Unlock()
+		out.Op("msg %s %d %d %d %d %d %d %d %d", m.Type.String(), m.Term, m.Index, rej, m.To, from.id, hs.Term, hs.Vote, last)
+		if ok {
+			out.Res("attested")
+		} else {
+			out.Res("premature")
+		}
+		if m.Type == raftpb.MsgAppResp {
+			acks = append(acks, fmt.Sprintf("to %d term %d index %d reject=%v at store last=%d", m.To, m.Term, m.Index, m.Reject, last))
+		}
+		if !ok && raftAs == "C03" {
+			if m.Type == raftpb.MsgAppResp {
+				out.Violate("C03", "C03/append-acknowledged-before-durable", fmt.Sprintf("node %d, deposed by the append of the new leader %d, acknowledged it up to index %d (term %d) while its log store held last index %d: the leader may commit and acknowledge a write that a crash of this replica loses", from.id, m.To, m.Index, m.Term, last))
+			}
+		} else if !ok {
+			out.Violate("C05", "C05/message-before-durable/"+m.Type.String(), fmt.Sprintf("node %d sent %s(term %d, index %d, reject %v) to %d while its log store held term %d, vote %d, last index %d", from.id, m.Type, m.Term, m.Index, m.Reject, m.To, hs.Term, hs.Vote, last))
+		}
+	}
+	n, err := c.start(1, []uint64{1, 2, 3}, "node-1")
+	if err != nil {
+		out.Violate(raftAs, raftAs+"/start-fails", err.Error())
+		return
+	}
+	waitFor(3*time.Second, func() bool { li, _ := n.w.LastIndex(); return li >= 3 })
+	send := func(m raftpb.Message) {
+		data, _ := m.Marshal()
+		n.tr.Receive(context.Background(), &pb.RaftMessage{GroupId: c.gid.Bytes(), Message: data})
+	}
+	// node 1 campaigns; node 2 grants: node 1 leads term T
+	n.g.VerifCampaign()
+	if !waitFor(3*time.Second, func() bool { hs, _ := n.w.HardState(); return hs.Term >= 1 && hs.Vote == 1 }) {
+		out.Local("the replica did not campaign")
+		c.teardown()
+		return
+	}
+	hs, _ := n.w.HardState()
+	T := hs.Term
+	send(raftpb.Message{Type: raftpb.MsgVoteResp, From: 2, To: 1, Term: T})
+	if !waitFor(3*time.Second, func() bool { return n.g.VerifStatus().Lead == 1 }) {
+		out.Local("the replica did not become leader of term %d", T)
+		c.teardown()
+		return
+	}
+	// its own empty entry of term T reaches the store
+	waitFor(2*time.Second, func() bool { li, _ := n.w.LastIndex(); return li >= 4 })
+	li, _ := n.w.LastIndex()
+	prev := li - 1
+	pt, _ := n.w.Term(prev)
+	out.Local("node 1 leads term %d with last index %d; node 2, leader of term %d, appends at index %d", T, li, T+1, prev+1)
+	send(raftpb.Message{Type: raftpb.MsgApp, From: 2, To: 1, Term: T + 1, Index: prev, LogTerm: pt, Commit: prev,
+		Entries: []raftpb.Entry{{Term: T + 1, Index: prev + 1, Type: raftpb.EntryNormal}}})
+	got := waitFor(3*time.Second, func() bool { mu.Lock(); defer mu.Unlock(); return len(acks) > 0 })
+	time.Sleep(50 * time.Millisecond)
+	mu.Lock()
+	out.Local("append responses of the deposed leader: %v", acks)
+	mu.Unlock()
+	if got {
+		out.Nontrivial("deposed-leader-learns-by-append")
+	}
 	c.teardown()
 }
